@@ -12,7 +12,13 @@ CONSTANTS Mode, MaxSeq, MaxQ, Batch, Stride, Offset
 
 Alphas == << <<97, 99, 107>>, <<97, 110, 91>>, <<65, 116, 42>>, <<103, 46, 40>> >>   \* a c k | a n [ | A t * | g . (
 SeqsUpTo(S, n) == UNION {SeqsOf(S, k) : k \in 0..n}
-ScanItems == SetToSeq(UNION {{<<s, q>> : s \in SeqsUpTo(SeqToSet(Alphas[a]), MaxSeq), q \in SeqsUpTo(SeqToSet(Alphas[a]), MaxQ) \ {<<>>}} : a \in 1..Len(Alphas)})
+\* queries that would mean something to a regexp engine (Match must read every byte outside the alphabet
+\* literally), against themselves, embedded in letters, and against plain letter sequences
+ProbeQs == { <<97, 123, 50, 125>>, <<123, 49, 125>>, <<110, 123, 51, 44, 125, 116>>, <<97, 123, 49, 44, 50, 125>>, <<97, 124, 99>>, <<40, 97, 41>>,
+             <<97, 43>>, <<94, 97>>, <<97, 36>>, <<92, 100>>, <<91, 97, 99, 93>>, <<46, 42>>, <<97, 63>>, <<92, 81, 97>>, <<97, 92>>, <<40, 63, 105, 41, 97>> }
+ProbeSeqs(q) == { q, <<97, 97>> \o q \o <<97, 97>>, <<97, 97, 97, 97>>, <<97, 99, 103, 97, 99, 103, 116>>, <<99, 99, 97, 97, 99, 99>>, <<65, 67, 97, 99>> }
+ProbeItems == UNION {{<<sq, q>> : sq \in ProbeSeqs(q)} : q \in ProbeQs}
+ScanItems == SetToSeq(ProbeItems \cup UNION {{<<s, q>> : s \in SeqsUpTo(SeqToSet(Alphas[a]), MaxSeq), q \in SeqsUpTo(SeqToSet(Alphas[a]), MaxQ) \ {<<>>}} : a \in 1..Len(Alphas)})
 NItems == IF Mode = "tables" THEN 1 ELSE (Len(ScanItems) + Batch - 1) \div Batch
 Picked == SelectSeq([j \in 1..NItems |-> j], LAMBDA j : j % Stride = Offset % Stride)
 
